@@ -81,6 +81,10 @@ func classify(kind byte, body []byte) string {
 // nested: module a includes submodule as0 only, which includes as (a submodule reached through another submodule)
 var nested bool
 
+// trio: module a includes as0 (which includes as), then as again, then as2; as2 holds what the model places in module a
+// itself (the text of a submodule is text of its module), so every include statement of a has to be followed
+var trio bool
+
 func texts(c *cas, variant int, shared bool) map[string]string {
 	body := map[string]*strings.Builder{"a": {}, "as": {}, "b": {}, "c": {}}
 	present := map[key]bool{}
@@ -134,6 +138,25 @@ func texts(c *cas, variant int, shared bool) map[string]string {
 	if nested {
 		inc, as0 = "include as0;", "submodule as0 { belongs-to a { prefix a; } include as; }\n"
 	}
+	if trio {
+		abody := body["a"].String()
+		var ids, rest []string
+		for _, l := range strings.SplitAfter(abody, "\n") {
+			if strings.HasPrefix(l, "  identity ") {
+				ids = append(ids, l)
+			} else {
+				rest = append(rest, l)
+			}
+		}
+		return map[string]string{
+			"as0": "submodule as0 { belongs-to a { prefix a; } include as; }\n",
+			"as2": "submodule as2 { belongs-to a { prefix a; } import b { prefix b; }\n" + strings.Join(ids, "") + "}\n",
+			"a":   "module a { namespace \"urn:a\"; prefix " + pa + "; import b { prefix b; } include as0; include as; include as2;\n" + strings.Join(rest, "") + "}\n",
+			"as":  "submodule as { belongs-to a { prefix a; } import b { prefix sb; }\n" + strings.ReplaceAll(body["as"].String(), " base b:", " base sb:") + "}\n",
+			"b":   "module b { namespace \"urn:b\"; prefix " + pb + ";\n" + fix(body["b"].String(), "b") + "}\n",
+			"c":   "module c { namespace \"urn:c\"; prefix " + pc + "; import a { prefix a; } import b { prefix b; }\n" + fix(body["c"].String(), "c") + "}\n",
+		}
+	}
 	return map[string]string{
 		"as0": as0,
 		"a":   "module a { namespace \"urn:a\"; prefix " + pa + "; import b { prefix b; } " + inc + "\n" + fix(body["a"].String(), "a") + "}\n",
@@ -185,7 +208,7 @@ func run(t map[string]string, order []string) obs {
 	if o.errs > 0 {
 		return o
 	}
-	for _, m := range []*yang.Module{ms.Modules["a"], ms.SubModules["as"], ms.Modules["b"], ms.Modules["c"]} {
+	for _, m := range []*yang.Module{ms.Modules["a"], ms.SubModules["as"], ms.SubModules["as2"], ms.Modules["b"], ms.Modules["c"]} {
 		if m == nil {
 			continue
 		}
@@ -241,6 +264,13 @@ func exec(kind byte, body []byte) *core.Verdict {
 	if !v2.OK || v2.Infra != "" {
 		return v2
 	}
+	trio = true
+	v3 := judgeVariant(&c, len(body), false)
+	trio = false
+	if !v3.OK || v3.Infra != "" {
+		return v3
+	}
+	v0.N += v3.N
 	v1 := judgeVariant(&c, len(body), true)
 	v1.N += v0.N + v2.N
 	if v1.Sample == nil {
@@ -253,12 +283,12 @@ func judgeVariant(c0 *cas, variant int, shared bool) *core.Verdict {
 	c := *c0
 	v := &core.Verdict{OK: true, Class: classOf(&c), NT: len(c.Ids) >= 2}
 	t := texts(&c, variant, shared)
-	text := t["a"] + t["as0"] + t["as"] + t["b"] + t["c"]
+	text := t["a"] + t["as0"] + t["as"] + t["as2"] + t["b"] + t["c"]
 	fail := func(sig, f string, a ...any) *core.Verdict {
 		v.OK, v.Sig, v.Detail = false, sig, fmt.Sprintf(f, a...)+"\n"+text
 		return v
 	}
-	orders := [][]string{{"a", "as0", "as", "b", "c"}, {"c", "b", "as", "as0", "a"}, {"b", "c", "a", "as", "as0"}, {"as", "as0", "a", "c", "b"}}
+	orders := [][]string{{"a", "as0", "as", "as2", "b", "c"}, {"c", "b", "as2", "as", "as0", "a"}, {"b", "c", "a", "as", "as2", "as0"}, {"as", "as0", "as2", "a", "c", "b"}}
 	var first obs
 	for k, ord := range orders {
 		o := run(t, ord)
